@@ -324,11 +324,11 @@ func outerScenarios() []hx.Scenario {
 	}
 	all := append(append([][]string{}, plain...), delayed...)
 	for _, sd := range []string{"", "s0", "s5"} {
-		// 2 callers, 1..2 operations each: quick when <= 3 operations in total (<= 2 with start delays or a late shutdown)
+		// 2 callers, 1..2 operations each: quick when <= 3 operations in total (<= 2 with start delays or a shutdown)
 		for _, name := range combos(all, 2, canonPlain, nil) {
 			th := parseScen(name)
 			hasZ := strings.Contains(name, "Z")
-			add(name, sd, nops(th) > 3 || (nops(th) > 2 && (hasZ || sd == "s5")), true, 2, 2)
+			add(name, sd, nops(th) > 3 || (nops(th) > 2 && (hasZ || sd != "")), true, 2, 2)
 		}
 		// 3 callers x 1 operation (no delay: quick; with delays: thorough)
 		for _, name := range combos(all, 3, canonPlain, func(th [][]string) bool { return nops(th) == 3 }) {
